@@ -3,8 +3,11 @@ package checks
 import (
 	"bytes"
 	"fmt"
+	"regexp"
 	"sort"
+	"strings"
 	"testing"
+	"unicode/utf8"
 
 	"pgregory.net/rapid"
 
@@ -193,6 +196,7 @@ func idsOf(docs []cs.Doc) []string {
 
 func TestC02(t *testing.T) {
 	t.Run("twins", testC02Twins)
+	t.Run("strings", testC02Strings)
 	t.Run("concurrent", func(t *testing.T) {
 		// an index created or dropped while other clients write: afterwards index-served scans (the
 		// sequential epilogue) must still return what a full scan returns
@@ -203,6 +207,97 @@ func TestC02(t *testing.T) {
 				return map[string]interface{}{"mode": "concurrent", "backend": h.Backend, "operations": len(h.Ops), "verdict": verdict}
 			}, "concurrent", "verdict:"+verdict)
 		})
+	})
+}
+
+// testC02Strings: string-valued twins (one indexed) queried with everything a planner could
+// serve from a range of the string index: anchored Like patterns over stored prefixes,
+// comparisons and pairs around stored strings, with high bytes and NULs right after a prefix.
+func testC02Strings(t *testing.T) {
+	col := collector("C02", ruleC02)
+	pool := []string{"", "a", "ab", "abc", "abd", "ac", "b", "a\x00", "a\x00b", "a\xff", "a\xffb", "a\xff\xff", "ab\xff", "ab\xffz", "\xff", "é", "éa", "a.b", "a*", "^a", "A", "Ab"}
+	check(t, "C02", cases(600, 20000), 0, func(rt *rapid.T) {
+		backend := rapid.SampledFrom([]string{run.Bbolt, run.Bbolt, run.BadgerMem}).Draw(rt, "backend")
+		s, err := sm.NewSession("C02", "c02str", backend)
+		if err != nil {
+			rt.Fatalf("open: %v", err)
+		}
+		defer s.Close()
+		do := func(op cs.Op) {
+			if f := s.Do(op); f != nil {
+				violate(rt, "C02", "c02str", s.Program(f), f)
+			}
+		}
+		// the indexed field's name has any length up to 65 bytes (key construction must not depend on it)
+		fld := "s" + strings.Repeat("q", rapid.IntRange(0, 64).Draw(rt, "field-name-pad"))
+		n := rapid.IntRange(2, 9).Draw(rt, "ndocs")
+		var docs []cs.Doc
+		var stored []string
+		for i := 0; i < n; i++ {
+			d := cs.Doc{"_id": gen.Id(i), "u": int64(i)}
+			switch rapid.IntRange(0, 9).Draw(rt, "shape") {
+			case 0: // absent
+			case 1:
+				d[fld] = nil
+			case 2:
+				d[fld] = int64(7)
+			default:
+				v := rapid.SampledFrom(pool).Draw(rt, "str")
+				d[fld] = v
+				stored = append(stored, v)
+			}
+			docs = append(docs, d)
+		}
+		ixFirst := rapid.Bool().Draw(rt, "index-first")
+		do(cs.Op{Kind: "createcoll", Coll: "A"})
+		do(cs.Op{Kind: "createcoll", Coll: "B"})
+		if ixFirst {
+			do(cs.Op{Kind: "createindex", Coll: "B", Field: fld})
+		}
+		do(cs.Op{Kind: "insert", Coll: "A", Docs: docs})
+		do(cs.Op{Kind: "insert", Coll: "B", Docs: docs})
+		if !ixFirst {
+			do(cs.Op{Kind: "createindex", Coll: "B", Field: fld})
+		}
+		lit := func(v interface{}) *cs.Operand { o := cs.Lit(v); return &o }
+		for qi := rapid.IntRange(3, 8).Draw(rt, "nqueries"); qi > 0; qi-- {
+			base := rapid.SampledFrom(pool).Draw(rt, "base")
+			if len(stored) > 0 && rapid.IntRange(0, 3).Draw(rt, "stored-base") != 0 {
+				base = rapid.SampledFrom(stored).Draw(rt, "base-stored")
+			}
+			var crit *cs.Crit
+			switch rapid.IntRange(0, 5).Draw(rt, "qshape") {
+			case 0, 1, 2:
+				// anchored at a prefix of the base string (1..len bytes, cut at a rune boundary is not
+				// required: QuoteMeta keeps the bytes; an invalid pattern is a legal error for both)
+				k := rapid.IntRange(0, len(base)).Draw(rt, "prefixlen")
+				pat := "^" + regexp.QuoteMeta(base[:k]) + rapid.SampledFrom([]string{"", ".*", "$", ".", "[^z]"}).Draw(rt, "tail")
+				if !utf8.ValidString(pat) {
+					pat = "^" + regexp.QuoteMeta(strings.ToValidUTF8(base[:k], ""))
+				}
+				crit = &cs.Crit{Op: "like", Field: fld, Pattern: pat}
+			case 3:
+				crit = &cs.Crit{Op: rapid.SampledFrom([]string{"gt", "gte", "lt", "lte", "eq", "neq"}).Draw(rt, "cmp"), Field: fld, Arg: lit(base)}
+			case 4:
+				hi := base + rapid.SampledFrom([]string{"\xff", "\x00", "z", "\xff\xff"}).Draw(rt, "hi")
+				crit = &cs.Crit{Op: "and", Sub: []*cs.Crit{{Op: "gte", Field: fld, Arg: lit(base)}, {Op: rapid.SampledFrom([]string{"lt", "lte"}).Draw(rt, "ub"), Field: fld, Arg: lit(hi)}}}
+			case 5:
+				crit = &cs.Crit{Op: "not", Sub: []*cs.Crit{{Op: "like", Field: fld, Pattern: "^" + regexp.QuoteMeta(strings.ToValidUTF8(base, ""))}}}
+			}
+			for _, coll := range []string{"A", "B"} {
+				q := &cs.Query{Coll: coll, Crit: crit}
+				if rapid.IntRange(0, 3).Draw(rt, "sorted") == 0 {
+					q.SortSet = true
+					q.Sort = []cs.SortOpt{{Field: fld, Dir: rapid.SampledFrom([]int{1, -1}).Draw(rt, "dir")}}
+				}
+				do(cs.Op{Kind: rapid.SampledFrom([]string{"find", "find", "count"}).Draw(rt, "kind"), Q: q})
+			}
+			matched := len(model.Matching(s.M.Colls["A"].Docs, crit))
+			col.Case(matched > 0 && matched < n, hashOf(docs, crit), func() interface{} {
+				return map[string]interface{}{"mode": "string twins", "criteria": crit.String(), "docs": n, "matched": matched, "backend": backend}
+			}, "string-twins", "backend:"+backend, "crit:"+crit.Op)
+		}
+		do(cs.Op{Kind: "close"})
 	})
 }
 
@@ -381,4 +476,8 @@ func testC02Twins(t *testing.T) {
 			},
 		})
 	})
+}
+
+func init() {
+	registerSM("C02", "c02str", func(b string) (*sm.Session, error) { return sm.NewSession("C02", "c02str", b) })
 }
